@@ -425,11 +425,13 @@ C01_CURATED = [
 
 
 class C01(Spec):
-    level_text = ('Partial. Proved: C01_update_total (option handling never fails for any option values), C01_range/ids invariants '
-                  'used by the no-raise argument; the raise sites of the model are explicit (exn type) and the correspondence compares '
-                  'ok/raise-kind/timeout of model and implementation on token-soup histories, degenerate definitions and pumped inputs. '
-                  'Not proved: absence of Raise for every input (the unchanged code does raise, see known findings); interpreter recursion '
-                  'depth is outside the model and is observed through the implementation only.')
+    level_text = ('Second sentence full, first sentence partial. Proved: C01_callback_irrelevant (for every fuel, source, option values and '
+                  'session, rendering with and without a callback gives the same HTML or the same failure, the same diagnostic texts, and '
+                  'sessions equal in everything but the callback flag -- the relational theorem rel_doc_render over the whole block layer), '
+                  'C01_callback_irrelevant_history (the same along histories), C01_update_total (option handling never fails for any option '
+                  'values), C01_api_reduces_to_document, C01_invariants. Not proved: absence of Raise for every input -- the unchanged code '
+                  'does raise (6 known findings); the raise sites of the model are explicit (type exn) and model/implementation are compared on '
+                  'ok / raise kind / timeout. Interpreter recursion depth is outside the model and is observed on the implementation only.')
     rule = ('token-soup histories with legal and illegal option values, degenerate quote/replacement/block definitions, repeated '
             'elements; each also run without callback; non-trivial = tag other than <p>, diagnostic or raise')
     state_keys = []
@@ -641,11 +643,13 @@ class C04(Spec):
 # C05 -- reset makes render a pure function
 
 class C05(Spec):
-    level_text = ('Full for the state: C05_reset_state (after updateFrom with a truthy reset the session equals the freshly initialised one '
-                  'with the call\'s options applied, except for the diagnostic log prefix and the list-id scratch stack, from *any* prior '
-                  'state including the uninitialised one) and C05_init_total_overwrite (document_init overwrites every field). That '
-                  'document.render does not read the two excepted fields is checked by correspondence and oracle (arbitrary histories vs a '
-                  'fresh interpreter), as is Python aliasing of default objects, which the model cannot exhibit.')
+    level_text = ('Full over the model. C05_reset_pure: for every fuel, source and option set carrying a truthy reset, and any two sessions '
+                  'whatever (any histories, including the never-initialised interpreter), rimu.render gives the same HTML or the same failure, '
+                  'appends the same diagnostics, and leaves sessions that agree on everything but the older log and the list-id scratch stack; '
+                  'C05_equals_fresh_process is the instance with the fresh interpreter. Proof: C05_reset_state (the option phase erases the '
+                  'history) + the relational theorem rel_doc_render (document.render never reads the two excepted fields before writing them). '
+                  'What a theorem about the model cannot see -- Python aliasing of default objects -- is the job of the oracle (arbitrary '
+                  'histories vs a fresh interpreter) and of the state-snapshot correspondence.')
     rule = ('random histories of 1-4 calls (redefinitions, ids, pending attributes, unterminated blocks, illegal options) followed by a call '
             'with reset=true; oracle compares with the same call alone in a fresh interpreter; non-trivial as usual')
     state_keys = None
@@ -1426,10 +1430,12 @@ class C17(Spec):
 
 
 class C19(Spec):
-    level_text = ('Partial. Proved: C19_lift_only_logs (every inline computation run by the block layer changes nothing but the diagnostic log), '
-                  'C19_illegal_mode_reported / C19_illegal_reset_reported (exactly one diagnostic naming the value), C19_unknown_block_option '
-                  '(Expand.parse reports every token that is not a block option and changes nothing for it), and the guard facts. Completeness '
-                  'for the listed fault classes on documents is decided by the fault-injection oracle and transcript correspondence.')
+    level_text = ('Last sentence full, completeness partial. Proved: C19_callback_never_alters_output (HTML, failure behaviour, session and the '
+                  'generated diagnostic texts are the same with and without a callback, for every input), C19_lift_only_logs (inline code changes '
+                  'nothing but the log), and the site lemmas C19_illegal_mode_reported / C19_legal_mode_silent / C19_illegal_reset_reported / '
+                  'C19_unknown_block_name_reported / C19_illegal_replacement_reported / C19_blank_macro_reported (exactly one diagnostic naming '
+                  'the value, nothing else changed), C19_unterminated_names. Completeness and silence on whole documents are decided by the '
+                  'fault-injection oracle and the transcript correspondence.')
     rule = ('well-formed generated documents (zero diagnostics expected) and single-fault mutants (closing delimiter removed, macro name '
             'misspelt, option value corrupted, block option / block name unknown, pattern ill-formed); also rendered without callback; '
             'non-trivial = the mutant carries a fault')
